@@ -15,3 +15,11 @@ pub open spec fn is_trim_end_of(t: Seq<char>, s: Seq<char>) -> bool {
 }
 pub assume_specification[ str::trim_end ](s: &str) -> (r: &str)
     ensures is_trim_end_of(r@, s@);
+/// PROVED: trimming keeps ASCII text ASCII (the result is a sub-sequence)
+pub broadcast proof fn lemma_trim_ascii(t: Seq<char>, s: Seq<char>)
+    requires #[trigger] is_trimmed_of(t, s), str_is_ascii(s)
+    ensures str_is_ascii(t)
+{
+    let (a, b) = choose|a: int, b: int| 0 <= a <= b <= s.len() && t == s.subrange(a, b);
+    assert(forall|i: int| 0 <= i < t.len() ==> #[trigger] t[i] == s[a + i]);
+}
